@@ -167,9 +167,13 @@ func (g G) LangK(k int) map[string]bool {
 		}
 		return a + " " + b
 	}
-	for changed := true; changed; {
+	for pass, changed := 0, true; changed; pass++ {
 		changed = false
-		for _, p := range g.Prods {
+		for pi := range g.Prods {
+			p := g.Prods[pi]
+			if pass%2 == 1 { // every other pass back to front: a chain converges in two passes whichever way it is listed
+				p = g.Prods[len(g.Prods)-1-pi]
+			}
 			cur := set{"": true}
 			for _, s := range p.Body {
 				next := set{}
@@ -206,6 +210,164 @@ func (g G) LangK(k int) map[string]bool {
 		return set{}
 	}
 	return env[g.Start]
+}
+
+// LangKCap is LangK that gives up (ok=false) as soon as some non-terminal has more than cap sentences of length ≤ k: for
+// large k on grammars whose language is sparse (long bodies, long chains).
+func (g G) LangKCap(k, cap int) (map[string]bool, bool) {
+	env := map[string]map[string]int{} // sentence -> its length
+	isNT := map[string]bool{}
+	for _, n := range g.NonTerms {
+		env[n] = map[string]int{}
+		isNT[n] = true
+	}
+	// bound[X]: a string of X longer than this cannot be part of a sentence of length ≤ k (exact pruning): k minus the least
+	// number of terminals that surround X in a sentential form derived from the start symbol
+	ml := g.MinLen()
+	const inf = 1 << 30
+	ctx := map[string]int{g.Start: 0}
+	for changed := true; changed; {
+		changed = false
+		for _, p := range g.Prods {
+			c, ok := ctx[p.Head]
+			if !ok {
+				continue
+			}
+			total, fin := 0, true
+			lens := make([]int, len(p.Body))
+			for i, s := range p.Body {
+				lens[i] = 1
+				if isNT[s] {
+					l, has := ml[s]
+					if !has {
+						fin = false
+						break
+					}
+					lens[i] = l
+				}
+				total += lens[i]
+			}
+			if !fin {
+				continue
+			}
+			for i, s := range p.Body {
+				if isNT[s] {
+					if v := c + total - lens[i]; v < inf {
+						if old, has := ctx[s]; !has || v < old {
+							ctx[s] = v
+							changed = true
+						}
+					}
+				}
+			}
+		}
+	}
+	bound := func(n string) int {
+		if c, ok := ctx[n]; ok {
+			return k - c
+		}
+		return -1 // not reachable in a terminating derivation: nothing of it matters
+	}
+	cat := func(a, b string) string {
+		if a == "" {
+			return b
+		}
+		if b == "" {
+			return a
+		}
+		return a + " " + b
+	}
+	for pass, changed := 0, true; changed; pass++ {
+		changed = false
+		for pi := range g.Prods {
+			p := g.Prods[pi]
+			if pass%2 == 1 {
+				p = g.Prods[len(g.Prods)-1-pi]
+			}
+			kk := bound(p.Head)
+			if kk < 0 {
+				continue
+			}
+			cur := map[string]int{"": 0}
+			for _, s := range p.Body {
+				next := make(map[string]int, len(cur))
+				if isNT[s] {
+					for a, la := range cur {
+						for b, lb := range env[s] {
+							if la+lb <= kk {
+								next[cat(a, b)] = la + lb
+							}
+						}
+					}
+				} else {
+					for a, la := range cur {
+						if la+1 <= kk {
+							next[cat(a, s)] = la + 1
+						}
+					}
+				}
+				cur = next
+				if len(cur) == 0 {
+					break
+				}
+				if len(cur) > cap {
+					return nil, false
+				}
+			}
+			if env[p.Head] == nil {
+				env[p.Head] = map[string]int{}
+			}
+			for w, l := range cur {
+				if _, ok := env[p.Head][w]; !ok {
+					env[p.Head][w] = l
+					changed = true
+				}
+			}
+			if len(env[p.Head]) > cap {
+				return nil, false
+			}
+		}
+	}
+	out := map[string]bool{}
+	for w := range env[g.Start] {
+		out[w] = true
+	}
+	return out, true
+}
+
+// MinLen returns, for every non-terminal that derives a terminal string, the length of a shortest one.
+func (g G) MinLen() map[string]int {
+	isNT := map[string]bool{}
+	for _, n := range g.NonTerms {
+		isNT[n] = true
+	}
+	ml := map[string]int{}
+	for changed := true; changed; {
+		changed = false
+		for _, p := range g.Prods {
+			total, ok := 0, true
+			for _, s := range p.Body {
+				if isNT[s] {
+					l, has := ml[s]
+					if !has {
+						ok = false
+						break
+					}
+					total += l
+				} else {
+					total++
+				}
+			}
+			if !ok {
+				continue
+			}
+			if l, has := ml[p.Head]; !has || total < l {
+				ml[p.Head] = total
+				changed = true
+			}
+		}
+	}
+	return ml
 }
 
 // Nullable returns the non-terminals deriving ε.
